@@ -19,24 +19,25 @@ import (
 const modulePath = "github.com/reeflective/readline"
 
 type Engine struct {
-	repo         string
-	verif        string
-	prog         *ssa.Program
-	fset         *token.FileSet
-	spkgs        map[string]*ssa.Package
-	tpkgs        map[string]*types.Package
-	byName       map[string]*types.Package // short package name -> package (module first)
-	pkgDirs      map[string]string
-	funcs        map[string]*ssa.Function
-	cs           *Contracts
-	src          map[string][]string
-	wsMemo       map[*ssa.Function]*WriteSet
-	inlMemo      map[*ssa.Function]bool
-	overlay      string
-	known        *KnownFindings
-	curProp      string
-	reachMemo    map[[2]*ssa.Function]bool
-	constGlobals map[*ssa.Global]*ssa.Const
+	repo          string
+	verif         string
+	prog          *ssa.Program
+	fset          *token.FileSet
+	spkgs         map[string]*ssa.Package
+	tpkgs         map[string]*types.Package
+	byName        map[string]*types.Package // short package name -> package (module first)
+	pkgDirs       map[string]string
+	funcs         map[string]*ssa.Function
+	cs            *Contracts
+	src           map[string][]string
+	wsMemo        map[*ssa.Function]*WriteSet
+	inlMemo       map[*ssa.Function]bool
+	overlay       string
+	known         *KnownFindings
+	curProp       string
+	reachMemo     map[[2]*ssa.Function]bool
+	constGlobals  map[*ssa.Global]*ssa.Const
+	nonNilGlobals map[*ssa.Global]bool
 }
 
 func LoadEngine(repo, verif string) (*Engine, error) {
@@ -558,6 +559,25 @@ func (e *Engine) callWrites(f *ssa.Function, ci ssa.CallInstruction, ws *WriteSe
 		}
 	}
 	if callee == nil {
+		// one of several known closures (phi of function values)?
+		if targets := closureTargets(c.Value, 0); len(targets) > 0 {
+			for _, t := range targets {
+				if ws.track {
+					sub := e.WriteSetOf(t)
+					for k := range sub.Keys {
+						ws.addKey(k, nil)
+					}
+					if sub.All && !ws.All {
+						ws.All, ws.Why = true, sub.Why
+					}
+				} else {
+					e.collectWrites(t, ws, visiting, false)
+				}
+			}
+			return
+		}
+	}
+	if callee == nil {
 		if fc := e.fnTypeContract(c.Value.Type()); fc != nil && fc.HasAssigns {
 			var names []string
 			sig := c.Signature()
@@ -786,6 +806,7 @@ func (e *Engine) constGlobal(g *ssa.Global) *ssa.Const {
 				}
 			}
 		}
+		e.nonNilGlobals = map[*ssa.Global]bool{}
 		for gl, ss := range stores {
 			if bad[gl] || len(ss) != 1 {
 				continue
@@ -793,7 +814,43 @@ func (e *Engine) constGlobal(g *ssa.Global) *ssa.Const {
 			if k, ok := ss[0].Val.(*ssa.Const); ok && ss[0].Parent().Name() == "init" {
 				e.constGlobals[gl] = k
 			}
+			// var errX = errors.New(...): assigned once, in the initialiser, with a non-nil error
+			if call, ok := ss[0].Val.(*ssa.Call); ok && ss[0].Parent().Name() == "init" {
+				if cal := call.Common().StaticCallee(); cal != nil && (cal.String() == "errors.New" || cal.String() == "fmt.Errorf") {
+					e.nonNilGlobals[gl] = true
+				}
+			}
 		}
 	}
 	return e.constGlobals[g]
+}
+
+// closureTargets: the functions a function-typed SSA value can denote when it is a closure, a function
+// or a phi of such (nil if anything else flows in).
+func closureTargets(v ssa.Value, depth int) []*ssa.Function {
+	if depth > 4 {
+		return nil
+	}
+	switch x := v.(type) {
+	case *ssa.MakeClosure:
+		return []*ssa.Function{x.Fn.(*ssa.Function)}
+	case *ssa.Function:
+		return []*ssa.Function{x}
+	case *ssa.Phi:
+		var out []*ssa.Function
+		for _, e := range x.Edges {
+			if k, ok := e.(*ssa.Const); ok && k.Value == nil {
+				continue // nil function: calling it panics, no effects
+			}
+			t := closureTargets(e, depth+1)
+			if t == nil {
+				return nil
+			}
+			out = append(out, t...)
+		}
+		return out
+	case *ssa.ChangeType:
+		return closureTargets(x.X, depth+1)
+	}
+	return nil
 }
